@@ -1,5 +1,5 @@
 (* C08 — the disk spool queue recovers consistently from a crash at any point. *)
-From CRNG Require Import Base.ListX Base.Bytes Base.Decimal Model.DiskQueue Proofs.DQBasics Proofs.DQReader Proofs.DQFifo Proofs.DQCrash.
+From CRNG Require Import Base.ListX Base.Bytes Base.Decimal Model.DiskQueue Proofs.DQBasics Proofs.DQReader Proofs.DQFifo Proofs.DQCrash Proofs.DQFifoSeg Proofs.DQCrashSeg.
 
 (* whatever stale bytes a crash left in the metadata .tmp file (it is reopened without
    truncation), the next persisted metadata reads back exactly *)
@@ -25,8 +25,8 @@ Print Assumptions C08_frame_roundtrip.
    consumer (sr <= kfin <= number delivered at the end of the history; sr and sw are the consumed / written
    counts of the last metadata rename contained in that state, so only the un-synced tail is missing and only
    messages consumed since that sync are delivered again).
-   (States with several segments, and the bound on sr at the very moment of the crash, are covered by the
-   acceptor recover_ok that every run evaluates on the real recoveries.) *)
+   (Superseded by C08_crash_at_any_point_all_segments below; kept as the simpler statement.  Applied to the prefix of the
+   history that ends with the operation during which the relay died, the bound reads sr <= the number handed over by then.) *)
 Theorem C08_crash_at_any_point_first_segment :
   forall c ops limit,
     fits_nr c 0 ops = true -> (length (puts ops) <= limit)%nat ->
@@ -39,6 +39,51 @@ Theorem C08_crash_at_any_point_first_segment :
           dq_drain c limit d = firstn (sw - sr) (skipn sr (puts ops)).
 Proof. exact crash_recovery. Qed.
 Print Assumptions C08_crash_at_any_point_first_segment.
+
+(* The same at full strength: ANY history of puts, gets and sync ticks — any maxBytesPerFile (also smaller than one message),
+   any syncEvery, messages below 2^31 bytes — so with segment roll-over, messages larger than a segment and removal of
+   consumed segments.  Every file-system state the I/O loop passed through (after each segment write, fsync, metadata temp
+   write, metadata rename and segment removal) is reopened by NewDiskQueue without panic, and the reopened queue, drained
+   completely, delivers a contiguous run E[sr .. sw) of the enqueued messages, intact and in order, with sr <= the number
+   handed to the consumer.  The proof carries, for every recorded state, an image (DQCrashSeg.img): the layout of the
+   messages over the segment files that the state's metadata names — closed files complete, the write file possibly longer
+   than the metadata says, later files ignored, the depth possibly stale — in one of two modes: the file of the metadata's
+   read position is present, or it is gone (removed after its last record was delivered, the metadata not yet rewritten),
+   in which case recovery goes through handleReadError to the next file, whose first message is no later than the first
+   undelivered one.  A roll-over and a file change of the reader are followed by a sync before anything else happens,
+   which is why at most one file can be missing. *)
+Theorem C08_crash_at_any_point_all_segments :
+  forall c ops limit,
+    nr_small ops = true -> (length (puts ops) <= limit)%nat ->
+    exists dfin kfin,
+      snd (dq_run c (dq_open c fs_empty []) ops) = Some dfin /\ (kfin <= length (puts ops))%nat /\
+      forall l f, In (l, f) (trace dfin) ->
+        exists sr sw d,
+          (sr <= sw)%nat /\ (sw <= length (puts ops))%nat /\ (sr <= kfin)%nat /\
+          dq_open c f [] = Some d /\
+          dq_drain c limit d = firstn (sw - sr) (skipn sr (puts ops)).
+Proof. exact crash_recovery_segments. Qed.
+Print Assumptions C08_crash_at_any_point_all_segments.
+
+(* recovery from any single image, in either mode *)
+Theorem C08_recover_image :
+  forall c E k W f, img c E k W f ->
+    exists d sr sw, dq_open c f [] = Some d /\ (sr <= sw)%nat /\ (sr <= k)%nat /\ (sw <= length E)%nat /\
+      forall limit, (sw - sr <= limit)%nat -> dq_drain c limit d = firstn (sw - sr) (skipn sr E).
+Proof. exact img_recover. Qed.
+Print Assumptions C08_recover_image.
+
+(* non-vacuity: a history with a roll-over, a message larger than a segment and a removed segment; its crash trace
+   contains every kind of mutation, a segment removal among them *)
+Example C08_all_segments_nonvacuous :
+  let c := {| c_max := 10; c_syncevery := 3 |} in
+  let ops := [Put [97;97;97]; Put [98;98;98;98;98;98;98;98;98;98;98;98]; Put [99]; Get; Get; SyncTick; Put [100]; Get; Get] in
+  nr_small ops = true /\
+  match snd (dq_run c (dq_open c fs_empty []) ops) with
+  | Some d => existsb (fun e => fst e =? L_seg_remove) (trace d) = true /\ (19 <=? length (trace d))%nat = true /\ 1 <=? readFileNum d = true
+  | None => False
+  end.
+Proof. vm_compute. auto. Qed.
 
 (* recovery from any single crashable state: what the metadata and the segment say is what comes out *)
 Theorem C08_recover :
